@@ -2,13 +2,15 @@
 (* protocol/v2/ssv/runner + protocol/v2/ssv/validator: when does a duty runner of a consensus role sign with the
    validator key share (KeyManager.SignBeaconObject)?
 
-     Validator.ProcessMessage / validateMessage (validator.go)                 -> Foreign
+     Validator.ProcessMessage / validateMessage (validator.go)                 -> RecvForeign
      BaseRunner.baseStartNewDuty / ShouldProcessDuty / baseSetupForNewDuty     -> StartDuty
      <Role>Runner.executeDuty (pre-consensus proof or decide)                  -> StartDuty
      BaseRunner.basePreConsensusMsgProcessing + <Role>Runner.ProcessPreConsensus (quorum -> decide) -> RecvPre
      BaseRunner.decide / Controller.StartNewInstance                           -> Decide
      BaseRunner.baseConsensusMsgProcessing, didDecideCorrectly, validateDecidedConsensusData,
        Controller.ProcessMsg / UponDecided / UponExistingInstanceMsg            -> RecvSeq, RecvDecided
+     InstanceContainer.addNewInstance / FindInstance (controller/types.go; same transcription as
+       spec/Controller.tla AddInst), production capacity InstanceContainerDefaultCapacity = 2 -> AddInst, Idx
      <Role>Runner.ProcessConsensus (signBeaconObject over the objects of the decided value)        -> Report
      BaseRunner.basePostConsensusMsgProcessing / ValidatePostConsensusMsg, Finished                -> RecvPost
 
@@ -17,59 +19,98 @@
    pre- or post-consensus partial signatures): per-message grain of QBFT is spec QBFT's, of the containers spec
    PartialSig's.  Heights = slots 1..MaxSlot (the height-0 special cases of the controller are C15's).
 
+   The controller stores at most Cap instances, sorted by height, highest first; State.RunningInstance is a POINTER
+   to the instance the runner started.  While that instance is stored (runIn) the stored record is the running
+   instance; once decided messages for Cap higher heights pushed it out, the runner still holds the object
+   (runSt/runVal, frozen: no message reaches it any more) while the controller treats its height as unknown:
+   UponDecided builds a fresh instance for it (not stored: lowest height, container full) and reports the decided
+   message as a new decision EVERY time.
+
    Values: "valid" = what this operator proposes itself, "alt" = another value that passes the duty's value
-   check, "invalid" = a value that fails it.  A value decided at height h is consensus data for slot h.          *)
+   check, "invalid" = a value that fails it.  A value decided at height h is consensus data for slot h.
+
+   PrevDec = "code"  : prevDecided := State.RunningInstance.IsDecided() (pinned commit).  If the running instance
+                       was pushed out BEFORE it decided it never becomes decided, so every delivery of its height's
+                       decided message signs again (named deviation, C03 finding signed-twice-evicted-undecided).
+   PrevDec = "fixed" : ... || State.DecidedValue != nil (proposed repair).                                      *)
 EXTENDS Integers, Sequences, FiniteSets, TLC
 
 CONSTANTS HasPre,     \* TRUE: proposer, aggregator, sync-committee contribution (pre-consensus proof when the duty starts)
           MaxSlot,
           MaxSig,     \* bound of sigLog
-          Weaken      \* removed guards: "noHeightCheck","noPrevDecided","noCtrlPrevDecided","noRevalidate","noRouteCheck"
+          Cap,        \* capacity of Controller.StoredInstances (2 in production)
+          Vals,       \* values carried by consensus messages, subset of {"valid", "alt", "invalid"}
+          Quorums,    \* signer sets of decided messages, subset of {"q1" (operators 1..Q), "q2" (2..Q+1), "all"}
+          PrevDec,    \* "code" | "fixed"
+          Weaken      \* removed / changed guards: "noHeightCheck","noPrevDecided","noCtrlPrevDecided","noRevalidate",
+                      \* "noRouteCheck","prevDecidedFromContainer"
 
 VARIABLES duty,       \* slot of State.StartingDuty, 0 = no State yet
           preDone,    \* pre-consensus quorum was processed (decide was attempted)
           runH,       \* height of State.RunningInstance, 0 = nil
+          runIn,      \* the running instance is (still) the stored instance of its height
+          runSt,      \* state / decided value of the running instance after it was pushed out of the container
+          runVal,
           dval,       \* State.DecidedValue: "none" | "valid" | "alt"
           finished,   \* State.Finished
           ctrlH,      \* Controller.Height
-          inst,       \* [height -> [st: "none"|"run"|"stopped"|"dec", val]]  Controller.StoredInstances
+          stored,     \* Controller.StoredInstances: sequence of [h, st: "run"|"stopped"|"dec", val], highest height first
           sigLog,     \* sequence of SignBeaconObject records
           act
-vars == <<duty, preDone, runH, dval, finished, ctrlH, inst, sigLog, act>>
-view == <<duty, preDone, runH, dval, finished, ctrlH, inst, sigLog>>
+vars == <<duty, preDone, runH, runIn, runSt, runVal, dval, finished, ctrlH, stored, sigLog, act>>
+view == <<duty, preDone, runH, runIn, runSt, runVal, dval, finished, ctrlH, stored, sigLog>>
 
 Slots == 1..MaxSlot
-Vals == {"valid", "alt", "invalid"}
 W(g) == g \in Weaken
 Running == duty # 0 /\ ~finished                        \* hasRunningDuty
 
-NoInst == [st |-> "none", val |-> "none"]
-Init == /\ duty = 0 /\ preDone = FALSE /\ runH = 0 /\ dval = "none" /\ finished = FALSE /\ ctrlH = 0
-        /\ inst = [h \in Slots |-> NoInst] /\ sigLog = <<>>
+(* InstanceContainer.FindInstance / addNewInstance *)
+Idx(st, h) == IF \E k \in 1..Len(st) : st[k].h = h THEN CHOOSE k \in 1..Len(st) : st[k].h = h ELSE 0
+AddInst(st, inst) ==
+    LET lower == {k \in 1..Len(st) : st[k].h < inst.h}
+        at    == IF lower = {} THEN Len(st) + 1 ELSE CHOOSE k \in lower : \A j \in lower : k <= j
+        n2    == IF Len(st) < Cap THEN Len(st) + 1 ELSE Cap
+    IN IF at = Len(st) + 1
+       THEN (IF Len(st) < Cap THEN Append(st, inst) ELSE st)        \* lowest and no room: not stored at all
+       ELSE [k \in 1..n2 |-> IF k < at THEN st[k] ELSE IF k = at THEN inst ELSE st[k - 1]]   \* last one ejected when full
+StoredSt(st, h) == IF Idx(st, h) = 0 THEN "none" ELSE st[Idx(st, h)].st
+StoredVal(st, h) == IF Idx(st, h) = 0 THEN "none" ELSE st[Idx(st, h)].val
+
+(* the running instance as the runner sees it through its pointer *)
+RunSt(st, in, frozen) == IF runH = 0 THEN "none" ELSE IF in THEN StoredSt(st, runH) ELSE frozen
+RunVal(st, in, frozen) == IF runH = 0 THEN "none" ELSE IF in THEN StoredVal(st, runH) ELSE frozen
+RunDecidedNow == RunSt(stored, runIn, runSt) = "dec"
+
+Init == /\ duty = 0 /\ preDone = FALSE /\ runH = 0 /\ runIn = FALSE /\ runSt = "none" /\ runVal = "none"
+        /\ dval = "none" /\ finished = FALSE /\ ctrlH = 0
+        /\ stored = <<>> /\ sigLog = <<>>
         /\ act = [name |-> "init"]
 
-(* BaseRunner.decide -> Controller.StartNewInstance(height = duty slot) -> <<inst, ctrlH, runH>> *)
-Decide(s, in, ch) ==
-    IF s < ch \/ in[s].st # "none" THEN <<in, ch, 0>>        \* "past height" / "instance already running": RunningInstance stays nil
-    ELSE <<[h \in Slots |-> IF h = s THEN [st |-> "run", val |-> "none"]
-                            ELSE IF in[h].st = "run" THEN [in[h] EXCEPT !.st = "stopped"] ELSE in[h]],   \* forceStopAllInstanceExceptCurrent
-           s, s>>
+(* BaseRunner.decide -> Controller.StartNewInstance(height = duty slot).  Sets stored, ctrlH, runH, runIn, runSt, runVal *)
+Decide(s) ==
+    IF s < ctrlH \/ Idx(stored, s) # 0
+    THEN /\ runH' = 0 /\ runIn' = FALSE /\ runSt' = "none" /\ runVal' = "none"      \* "past height" / "instance already running"
+         /\ UNCHANGED <<stored, ctrlH>>
+    ELSE LET st2 == AddInst(stored, [h |-> s, st |-> "run", val |-> "none"])
+         IN /\ stored' = [k \in 1..Len(st2) |-> IF st2[k].h # s /\ st2[k].st = "run"
+                                                 THEN [st2[k] EXCEPT !.st = "stopped"] ELSE st2[k]]   \* forceStopAllInstanceExceptCurrent
+            /\ ctrlH' = s /\ runH' = s /\ runIn' = TRUE /\ runSt' = "none" /\ runVal' = "none"
 
-PreSig(s) == [k |-> "pre", slot |-> s, h |-> 0, objH |-> 0, v |-> "none", instDec |-> FALSE, instVal |-> "none", foreign |-> FALSE, fin |-> FALSE]
+PreSig(s) == [k |-> "pre", slot |-> s, h |-> 0, objH |-> 0, v |-> "none", instDec |-> FALSE, instVal |-> "none",
+              foreign |-> FALSE, fin |-> FALSE, detached |-> FALSE]
 
 StartDuty(s) ==
     /\ IF ctrlH >= s /\ ctrlH # 0                            \* ShouldProcessDuty
-       THEN /\ UNCHANGED <<duty, preDone, runH, dval, finished, ctrlH, inst, sigLog>>
+       THEN /\ UNCHANGED <<duty, preDone, runH, runIn, runSt, runVal, dval, finished, ctrlH, stored, sigLog>>
             /\ act' = [name |-> "StartDuty", s |-> s, ok |-> FALSE]
        ELSE /\ duty' = s /\ preDone' = FALSE /\ dval' = "none" /\ finished' = FALSE     \* baseSetupForNewDuty: new State
             /\ IF HasPre
-               THEN /\ runH' = 0 /\ UNCHANGED <<ctrlH, inst>>
+               THEN /\ runH' = 0 /\ runIn' = FALSE /\ runSt' = "none" /\ runVal' = "none" /\ UNCHANGED <<ctrlH, stored>>
                     \* the proof of a slot is logged once: starting the same slot again (possible while the controller
                     \* height is below it) signs the same proof again, which C03 does not restrict
                     /\ sigLog' = IF Len(sigLog) < MaxSig /\ \A i \in 1..Len(sigLog) : sigLog[i] # PreSig(s)
                                  THEN Append(sigLog, PreSig(s)) ELSE sigLog
-               ELSE LET d == Decide(s, inst, ctrlH) IN
-                    /\ inst' = d[1] /\ ctrlH' = d[2] /\ runH' = d[3] /\ UNCHANGED sigLog
+               ELSE Decide(s) /\ UNCHANGED sigLog
             /\ act' = [name |-> "StartDuty", s |-> s, ok |-> TRUE]
 
 (* pre-consensus partial signatures (roles with HasPre): c = "quorum" (the correct messages that complete the
@@ -77,87 +118,114 @@ StartDuty(s) ==
 RecvPre(c) ==
     /\ HasPre
     /\ IF Running /\ c = "quorum" /\ ~preDone
-       THEN LET d == Decide(duty, inst, ctrlH) IN
-            /\ preDone' = TRUE /\ inst' = d[1] /\ ctrlH' = d[2] /\ runH' = d[3]
-       ELSE UNCHANGED <<preDone, inst, ctrlH, runH>>
+       THEN preDone' = TRUE /\ Decide(duty)
+       ELSE UNCHANGED <<preDone, stored, ctrlH, runH, runIn, runSt, runVal>>
     /\ UNCHANGED <<duty, dval, finished, sigLog>>
     /\ act' = [name |-> "RecvPre", c |-> c]
 
-(* what the runner does with the decided message the controller returned (h = its height, v = its value) *)
-Report(h, v, returned, prevDec, in, foreignMsg) ==
-    LET correct == /\ returned
+(* the stored sequence after an insertion / update keeps or loses the running instance *)
+StillIn(st2) == runIn /\ Idx(st2, runH) # 0
+
+(* what the runner does with the decided message the controller returned (h = its height, v = its value);
+   st2 = the container after the controller call *)
+Report(h, v, returned, prevDec, st2, foreignMsg) ==
+    LET in2 == StillIn(st2)
+        frozenSt == IF runIn /\ ~in2 THEN StoredSt(stored, runH) ELSE runSt       \* pushed out by this very call: state before it
+        frozenVal == IF runIn /\ ~in2 THEN StoredVal(stored, runH) ELSE runVal
+        rs == RunSt(st2, in2, frozenSt)
+        rv == RunVal(st2, in2, frozenVal)
+        correct == /\ returned
                    /\ runH # 0                                     \* "decided wrong instance"
                    /\ (h = runH \/ W("noHeightCheck"))
                    /\ (~prevDec \/ W("noPrevDecided"))
         ok == Running /\ correct
         valid == v # "invalid" \/ W("noRevalidate")               \* validateDecidedConsensusData
         e == [k |-> "post", slot |-> duty, h |-> runH, objH |-> h, v |-> v,
-              instDec |-> (runH # 0 /\ in[runH].st = "dec"), instVal |-> (IF runH # 0 THEN in[runH].val ELSE "none"),
-              foreign |-> foreignMsg, fin |-> finished]
-    IN /\ dval' = IF ok /\ valid THEN v ELSE dval
+              instDec |-> (rs = "dec"), instVal |-> rv, foreign |-> foreignMsg, fin |-> finished,
+              detached |-> (runH # 0 /\ ~in2 /\ rs # "dec")]
+    IN /\ runIn' = in2 /\ runSt' = (IF in2 THEN "none" ELSE frozenSt) /\ runVal' = (IF in2 THEN "none" ELSE frozenVal)
+       /\ dval' = IF ok /\ valid THEN v ELSE dval
        /\ sigLog' = IF ok /\ valid /\ Len(sigLog) < MaxSig THEN Append(sigLog, e) ELSE sigLog
 
-(* the genuine deciding sequence (proposal of the leader, quorum of prepares, quorum of commits) for height h, value v *)
+(* prevDecided of baseConsensusMsgProcessing, evaluated before the controller call, for a message of height h *)
+PrevDecided(h) ==
+    IF W("prevDecidedFromContainer") THEN runH # 0 /\ StoredSt(stored, h) = "dec"
+    ELSE \/ RunDecidedNow
+         \/ PrevDec = "fixed" /\ Running /\ dval # "none"
+
+(* the genuine deciding sequence (proposal of the leader, quorum of prepares, quorum of commits) for height h, value v:
+   reaches the STORED instance of h only *)
 RecvSeq(h, v) ==
-    /\ LET live == inst[h].st = "run" /\ h <= ctrlH /\ v # "invalid"      \* the instance refuses a proposal that fails its value check
-           prevDec == runH # 0 /\ inst[runH].st = "dec"
-           in2 == IF live THEN [inst EXCEPT ![h] = [st |-> "dec", val |-> v]] ELSE inst
-       IN /\ inst' = in2
-          /\ Report(h, v, live, prevDec, in2, FALSE)
+    /\ LET k == Idx(stored, h)
+           live == k # 0 /\ stored[k].st = "run" /\ h <= ctrlH /\ v # "invalid"   \* the instance refuses a proposal that fails its value check
+           st2 == IF live THEN [stored EXCEPT ![k] = [h |-> h, st |-> "dec", val |-> v]] ELSE stored
+       IN /\ stored' = st2
+          /\ Report(h, v, live, PrevDecided(h), st2, FALSE)
           /\ act' = [name |-> "RecvSeq", h |-> h, v |-> v, decided |-> live]
     /\ UNCHANGED <<duty, preDone, runH, finished, ctrlH>>
 
-(* a decided message (aggregated commit of a quorum; more = TRUE: of all operators) for height h with value v *)
-Decided(h, v, more, foreignMsg) ==
-    LET was == inst[h].st = "dec"
-        prevDec == runH # 0 /\ inst[runH].st = "dec"
-        in2 == IF was THEN inst ELSE [inst EXCEPT ![h] = [st |-> "dec", val |-> v]]
-        returned == ~was \/ (more /\ W("noCtrlPrevDecided"))
-    IN /\ inst' = in2
+(* a decided message (aggregated commit of the signers q) for height h with value v *)
+Decided(h, v, q, foreignMsg) ==
+    LET k == Idx(stored, h)
+        was == k # 0 /\ stored[k].st = "dec"
+        st2 == IF k = 0 THEN AddInst(stored, [h |-> h, st |-> "dec", val |-> v])     \* fresh decided instance (maybe not stored)
+               ELSE IF was THEN stored
+               ELSE [stored EXCEPT ![k] = [h |-> h, st |-> "dec", val |-> v]]
+        returned == ~was \/ (q = "all" /\ W("noCtrlPrevDecided"))
+    IN /\ stored' = st2
        /\ ctrlH' = IF h > ctrlH THEN h ELSE ctrlH
-       /\ Report(h, v, returned, prevDec, in2, foreignMsg)
+       /\ Report(h, v, returned, PrevDecided(h), st2, foreignMsg)
 
-RecvDecided(h, v, more) ==
-    /\ Decided(h, v, more, FALSE)
+RecvDecided(h, v, q) ==
+    /\ Decided(h, v, q, FALSE)
     /\ UNCHANGED <<duty, preDone, runH, finished>>
-    /\ act' = [name |-> "RecvDecided", h |-> h, v |-> v, more |-> more]
+    /\ act' = [name |-> "RecvDecided", h |-> h, v |-> v, q |-> q]
 
 (* a message whose envelope names another validator (content: a decided message that would be valid for us) or another role *)
 RecvForeign(c, h, v) ==
     /\ IF c = "otherValidator" /\ W("noRouteCheck")
-       THEN Decided(h, v, FALSE, TRUE)
-       ELSE UNCHANGED <<inst, ctrlH, dval, sigLog>>
+       THEN Decided(h, v, "q1", TRUE)
+       ELSE UNCHANGED <<stored, ctrlH, dval, sigLog, runIn, runSt, runVal>>
     /\ UNCHANGED <<duty, preDone, runH, finished>>
     /\ act' = [name |-> "RecvForeign", c |-> c, h |-> h, v |-> v]
 
-(* post-consensus partial signatures: c = "quorum" (correct messages completing the quorum for the decided objects), "one" *)
+(* post-consensus partial signatures: c = "quorum" (correct messages completing the quorum for the decided objects), "one".
+   ValidatePostConsensusMsg needs DecidedValue AND a decided running instance *)
 RecvPost(c) ==
-    /\ finished' = IF Running /\ dval # "none" /\ c = "quorum" THEN TRUE ELSE finished
-    /\ UNCHANGED <<duty, preDone, runH, dval, ctrlH, inst, sigLog>>
+    /\ finished' = IF Running /\ dval # "none" /\ RunDecidedNow /\ c = "quorum" THEN TRUE ELSE finished
+    /\ UNCHANGED <<duty, preDone, runH, runIn, runSt, runVal, dval, ctrlH, stored, sigLog>>
     /\ act' = [name |-> "RecvPost", c |-> c]
 
 Next == \/ \E s \in Slots : StartDuty(s)
         \/ \E c \in {"quorum", "one", "wrongSlot"} : RecvPre(c)
         \/ \E h \in Slots, v \in Vals : RecvSeq(h, v)
-        \/ \E h \in Slots, v \in Vals, m \in BOOLEAN : RecvDecided(h, v, m)
+        \/ \E h \in Slots, v \in Vals, q \in Quorums : RecvDecided(h, v, q)
         \/ \E c \in {"otherValidator", "otherRole"}, h \in Slots : RecvForeign(c, h, "valid")
         \/ \E c \in {"quorum", "one"} : RecvPost(c)
 Spec == Init /\ [][Next]_vars
 
 ----------------------------------------------------------------------------
 Entries == {sigLog[i] : i \in 1..Len(sigLog)}
-(* every post-consensus signature: over an object of the value the running instance decided for the duty's slot, after
-   that value passed the value check, caused by a message for this validator, while the duty was running;
-   every other signature is the pre-consensus proof of the slot of the duty being started; nothing signed twice *)
+SamePost(i, j) == /\ sigLog[i].k = "post" /\ sigLog[j].k = "post"
+                  /\ <<sigLog[i].objH, sigLog[i].v>> = <<sigLog[j].objH, sigLog[j].v>>
+(* every post-consensus signature: over an object of the value decided for the duty's slot by the running instance (or,
+   when the controller dropped that instance before it decided, by the decided message of its height), after that value
+   passed the value check, caused by a message for this validator, while the duty was running; every other signature is
+   the pre-consensus proof of the slot of the duty being started; no decided object is signed again *)
 SigWindow ==
     /\ \A e \in Entries : e.k = "post" =>
           /\ e.slot # 0 /\ ~e.fin /\ ~e.foreign
-          /\ e.h = e.slot /\ e.objH = e.h
-          /\ e.instDec /\ e.v = e.instVal /\ e.v # "invalid"
+          /\ e.h = e.slot /\ e.objH = e.h /\ e.v # "invalid"
+          /\ (e.instDec /\ e.v = e.instVal) \/ e.detached
     /\ \A e \in Entries : e.k = "pre" => HasPre /\ e.slot \in Slots
-    /\ \A i, j \in 1..Len(sigLog) : (i < j /\ sigLog[i].k = "post" /\ sigLog[j].k = "post")
-          => <<sigLog[i].objH, sigLog[i].v>> # <<sigLog[j].objH, sigLog[j].v>>
+    /\ \A i, j \in 1..Len(sigLog) : (i < j /\ SamePost(i, j)) => sigLog[j].detached
+(* the part of "at most once" that the pinned commit does not keep (finding): a running instance pushed out of the
+   container before it decided signs on every delivery of its height's decided message *)
+OnceDetached == \A i, j \in 1..Len(sigLog) : (i < j /\ SamePost(i, j)) => ~sigLog[j].detached
 TypeOK == /\ duty \in 0..MaxSlot /\ runH \in 0..MaxSlot /\ ctrlH \in 0..MaxSlot
           /\ dval \in {"none", "valid", "alt"}
-          /\ runH # 0 => (runH = duty /\ inst[runH].st # "none")
+          /\ Len(stored) <= Cap
+          /\ \A k \in 1..(Len(stored) - 1) : stored[k].h > stored[k + 1].h
+          /\ runH # 0 => runH = duty
+          /\ runIn => (runH # 0 /\ Idx(stored, runH) # 0)
 =============================================================================
